@@ -8,9 +8,9 @@ import sys, os
 sys.path.insert(0, "harness")
 import common
 common.build_repo()
+common.build_drv()
 ok, log = common.build_coq()
 print("coq build:", "ok" if ok else "FAILED (see _build/coq_make.log)")
 common.build_extract()
-common.build_drv()
 print("setup done")
 PY
